@@ -180,11 +180,15 @@ def py_focus(rng):
     OffsetDateTime / Vec<u8> field with or without something else in the file that registers the plain text (plain sibling
     field, field of another struct or of a struct variant, the formatter itself below Option / Vec / HashMap, a payload, an
     alias), and a generic alias with or without a struct / data-carrying enum (or only a unit enum, or a struct on ANOTHER
-    parameter) declaring the TypeVar.  -> (source, cfg, info)"""
+    parameter) declaring the TypeVar; and ('phantom') a generic struct / struct variant whose parameter is listed in the class
+    header (`Generic[T]`) but never formatted as a type - it occurs only in a serde(skip) PhantomData marker, or only inside the
+    arguments of a generic type that type_mappings replaces - so that its TypeVar exists only if the WRITER of the item declares it
+    (seeded C12_f declares TypeVars where a parameter is formatted; since the repair of write_type_alias that change no longer differs
+    from the code on aliases, only here).  -> (source, cfg, info)"""
     names = rng.sample(TYPE_NAMES, 6)
     items, generics, triggers = [], [], set()
     cfg = {'type_mappings': rng.choice([{}, {'Vec<u8>': 'bytes'}, {'Vec<u8>': 'bytes'}])}
-    parts = rng.choice([['default'], ['alias'], ['default', 'alias']])
+    parts = rng.choice([['default'], ['alias'], ['default', 'alias'], ['phantom'], ['alias', 'phantom'], ['default', 'phantom']])
     if 'default' in parts:
         kinds = rng.sample(['datetime', 'bytes'], rng.choice([1, 1, 2]))
         fields = [f'    #[serde(default)]\n    pub d{i}: {PY_LEAF[kd]},\n' for i, kd in enumerate(kinds)]
@@ -237,6 +241,18 @@ def py_focus(rng):
             items.insert(rng.randint(0, len(items)), f'#[typeshare]\n#[serde(tag = "type", content = "content")]\npub enum {names[5]}<{g}> {{\n    A {{\n        v: {g},\n    }},\n}}\n')
         elif comp == 'alias_other':
             items.insert(rng.randint(0, len(items)), f'#[typeshare]\npub type {names[5]}Al<{g}> = Vec<{g}>;\n')
+    if 'phantom' in parts:
+        free = [x for x in GENERIC_NAMES if x not in generics] or GENERIC_NAMES
+        g = rng.choice(free)
+        generics.append(g); triggers.add('phantom_generic')
+        shape = rng.choice(['skip', 'mapped_args', 'variant_skip'])
+        if shape == 'skip':
+            items.insert(rng.randint(0, len(items)), f'#[typeshare]\npub struct {names[2]}Ph<{g}> {{\n    #[serde(skip)]\n    pub marker: std::marker::PhantomData<{g}>,\n    pub n: u32,\n}}\n')
+        elif shape == 'mapped_args':
+            cfg = {'type_mappings': dict(cfg['type_mappings'], Boxed='int')}
+            items.insert(rng.randint(0, len(items)), f'#[typeshare]\npub struct {names[2]}Mp<{g}> {{\n    pub b: Boxed<{g}>,\n    pub n: u32,\n}}\n')
+        else:
+            items.insert(rng.randint(0, len(items)), f'#[typeshare]\n#[serde(tag = "type", content = "content")]\npub enum {names[2]}Pv<{g}> {{\n    A {{\n        #[serde(skip)]\n        marker: std::marker::PhantomData<{g}>,\n        n: u32,\n    }},\n    B,\n}}\n')
     if 'wrap' in triggers:
         items.insert(rng.randint(0, len(items)), '#[typeshare]\npub struct Wrap<W> {\n    pub inner: W,\n}\n')
         generics.append('W')
@@ -547,7 +563,8 @@ def run(chk):
                 'configurations: Swift prefix, CodableVoid constraints, Kotlin empty package / prefix / JvmInline, Go acronyms / no_pointer_slice, Python '
                 'Vec<u8> -> bytes mapping; plus Python programs on the boundary of the two repaired Python classes (py_focus: a serde(default) OffsetDateTime / '
                 'Vec<u8> field with / without something else registering the plain text; a generic alias with / without a struct / data-carrying enum '
-                'declaring its parameter - all judged without a class since the repairs) and the non-vacuity input of C12_python as real source. non-trivial =distinct (language, configuration, program) inside dom with a non-empty use set')
+                'declaring its parameter - all judged without a class since the repairs; a generic struct / struct variant whose parameter is only in the class header: '
+                'serde(skip) PhantomData marker, arguments of a mapped generic) and the non-vacuity input of C12_python as real source. non-trivial =distinct (language, configuration, program) inside dom with a non-empty use set')
     chk.assumptions = ['syn is not modelled: the model receives the AST libdrive produces from the same text',
                        'the real observation is recovered from text by a token-level reader (strings/comments removed by lib/extract.py lexers); '
                        'Python additionally through ast.parse + name resolution; no Swift/Scala/Kotlin/Go compiler is installed',
